@@ -105,6 +105,9 @@ func hold(what string, now func() string) {
 	heldAcross = append(heldAcross, h)
 }
 
+// cl copies a text the library handed out (it may share storage that later calls overwrite)
+func cl(s string) string { return string([]byte(s)) }
+
 // short: a rendering cut to a readable length plus a digest of the whole
 func short(s string) string {
 	if len(s) <= 160 {
